@@ -73,6 +73,7 @@ def sessions(rng, base, k):
         # driven through TestRegistry's API with filter objects that live across the runs at fixed addresses and are re-assigned
         for v in out:
             v["api"] = True
+            v["early"] = rng.random() < 0.5      # the options reach the registry before the tests do
             v["gf"] = v["gf"][:8]; v["nf"] = v["nf"][:8]
     return out
 
